@@ -2,6 +2,7 @@ package vlog
 
 import (
 	"os"
+	"strings"
 	"testing"
 )
 
@@ -90,5 +91,24 @@ func TestIPLintDetail(t *testing.T) {
 		for _, dg := range Lint(d, LintOpts{}) {
 			t.Log(dg)
 		}
+	}
+}
+
+func TestDumpSO(t *testing.T) {
+	so := os.Getenv("VLOG_SO")
+	if so == "" {
+		t.Skip()
+	}
+	ops := []string{"i2r", "r2o", "j", "nop", "rset", "inc"}
+	ops = append(ops, strings.Split(os.Getenv("VLOG_SO_OPS"), ",")...)
+	files, err := renderBondMachine(t, 8, []bmProc{
+		{ops: ops, R: 2, N: 1, M: 1, L: 2, O: 4, prog: "nop\nj 0\n", shared: []int{0}},
+		{ops: ops, R: 2, N: 1, M: 1, L: 2, O: 4, prog: "nop\nj 0\n", shared: []int{0}},
+	}, 1, 1, [][2]string{{"i0", "p0i0"}, {"p0o0", "p1i0"}, {"p1o0", "o0"}}, []string{so})
+	if err != nil {
+		t.Fatal(err)
+	}
+	for n, v := range files {
+		os.WriteFile("/tmp/r/so_"+n, []byte(v), 0644)
 	}
 }
